@@ -7,7 +7,7 @@
 use fbh::classfile::raw::{self, Annotation, AttrInfo, Attribute, Const, ElementValue, LineNumber, LocalVar, RawClass, TargetInfo, TypeAnnotation};
 use fbh::prng::Rng;
 
-pub const KINDS: [&str; 12] = ["empty-annotations", "empty-lists", "empty-debug-tables", "flags-only", "signature-everywhere", "dup-annotations", "mixed-debug-tables", "reordered-debug-tables", "cldc-stackmap", "annotation-values", "type-annotation-values", "too-deep-annotation"];
+pub const KINDS: [&str; 13] = ["empty-annotations", "empty-lists", "empty-debug-tables", "flags-only", "signature-everywhere", "dup-annotations", "mixed-debug-tables", "reordered-debug-tables", "cldc-stackmap", "annotation-values", "type-annotation-values", "module-flags", "too-deep-annotation"];
 
 fn utf8(c: &mut RawClass, s: &str) -> u16 {
 	for (i, e) in c.pool.iter().enumerate() {
@@ -346,6 +346,21 @@ pub fn edit(rng: &mut Rng, c: &mut RawClass, kind: &str) -> bool {
 				}
 			});
 			changed = done;
+		}
+		"module-flags" => {
+			// every flags word of a Module attribute (module, requires, exports, opens): single bits incl. the ones duke's flag types
+			// do not keep, all bits, random words — the value handed over keeps exactly the bits of the type's From<u16>
+			let mut word = |rng: &mut Rng| -> u16 { match rng.below(4) { 0 => 1u16 << rng.below(16), 1 => 0xffff, 2 => [0x20, 0x40, 0x60, 0x80, 0x1000, 0x8000, 0x9060][rng.below(7)], _ => rng.below(65536) as u16 } };
+			for a in c.attributes.iter_mut() {
+				if let AttrInfo::Module(m) = &mut a.info {
+					m.flags = word(rng);
+					// the first row of every vector carries ALL bits (so that one edited class shows every bit a flag type keeps or drops)
+					for (k, r) in m.requires.iter_mut().enumerate() { r.flags = if k == 0 { 0xffff } else { word(rng) }; }
+					for (k, e) in m.exports.iter_mut().enumerate() { e.flags = if k == 0 { 0xffff } else { word(rng) }; }
+					for (k, e) in m.opens.iter_mut().enumerate() { e.flags = if k == 0 { 0xffff } else { word(rng) }; }
+					changed = true;
+				}
+			}
 		}
 		_ => {}
 	}
